@@ -46,10 +46,10 @@ def Store.names (s : Store) (a : Nat) : List Nat := (s.filter (fun p => p.1.1 = 
 structure TxState where
   store : Store
   recorded : List Key     -- `Storage.contractUpdates`: locations with a recorded update in this transaction
-  fresh : List Key := []  -- recorded updates that hold a contract value created in this transaction
-  orphaned : Bool := false
-    -- a contract value created in this transaction was overwritten by a recorded removal: its slabs stay
-    -- in storage without a reference (`recordContractUpdate` replaces the map entry, nothing removes the value)
+  replaced : List Key := []
+    -- `Storage.replacedContractValues`: a contract value created in this transaction whose recorded update
+    -- was overwritten by a recorded removal; never written to the contract storage map, removed from
+    -- storage at commit (so that no slab stays unreferenced)
 
 inductive Op where
   | add (a n s : Nat) | update (a n s : Nat) | tryUpdate (a n s : Nat) | remove (a n : Nat)
@@ -61,7 +61,6 @@ inductive Abort where
   | invalid   -- InvalidContractDeploymentError (parser, checker, update validator)
   | panic     -- stdlib.PanicError
   | removal   -- ContractRemovalError
-  | unreferenced  -- runtime.UnreferencedRootSlabsError (internal), raised by the storage health check at commit
   deriving DecidableEq, Repr
 
 inductive Obs where
@@ -88,8 +87,7 @@ def step (F : Facts) (t : TxState) : Op → Res (TxState × Obs)
     else if !F.nameOk s then .abort .default
     else if !F.isIface s && F.initFails s then .abort .panic
     else .ok ({ t with store := t.store.set (a, n) { code := s, hasValue := !F.isIface s },
-                       recorded := if F.isIface s then t.recorded else (a, n) :: t.recorded,
-                       fresh := if F.isIface s then t.fresh else (a, n) :: t.fresh }, .done)
+                       recorded := if F.isIface s then t.recorded else (a, n) :: t.recorded }, .done)
   | .update a n s =>
     match doUpdate F t a n s with
     | .ok t' => .ok (t', .done)
@@ -104,8 +102,8 @@ def step (F : Facts) (t : TxState) : Op → Res (TxState × Obs)
     | some e =>
       if F.hasEnum e.code then .abort .removal
       else .ok ({ store := t.store.erase (a, n), recorded := (a, n) :: t.recorded,
-                  fresh := t.fresh.filter (· ≠ (a, n)),
-                  orphaned := t.orphaned || t.fresh.contains (a, n) }, .bool true)
+                  replaced := if e.hasValue && t.recorded.contains (a, n) then (a, n) :: t.replaced else t.replaced },
+                .bool true)
   | .get a n => .ok (t, .code ((t.store.find (a, n)).map (·.code)))
   | .borrow a n =>
     .ok (t, .value (match t.store.find (a, n) with
@@ -121,15 +119,13 @@ structure TxObs where
 
 /-- run the operations of one transaction on its view -/
 def runOps (F : Facts) : TxState → List Op → List Obs → TxState × TxObs
-  | t, [], acc => (t, ⟨acc.reverse, if t.orphaned then some .unreferenced else none⟩)
+  | t, [], acc => (t, ⟨acc.reverse, none⟩)
   | t, op :: ops, acc =>
     match step F t op with
     | .ok (t', o) => runOps F t' ops (o :: acc)
     | .abort e => (t, ⟨acc.reverse, some e⟩)
 
-/-- one transaction on the committed state: commit on success, no change on abort.
-(With the storage health check off the orphaned slabs would be committed instead; the test runtime and
-this machine run with the check on.) -/
+/-- one transaction on the committed state: commit on success, no change on abort -/
 def runTx (F : Facts) (s : Store) (tx : List Op) : Store × TxObs :=
   let (t, o) := runOps F { store := s, recorded := [] } tx []
   match o.outcome with
